@@ -101,8 +101,8 @@ func runOp(p *plenc.Plenc, op c07Op, cfg vh.Cfg) (out string, panicked string) {
 			if len(data) > 2 {
 				bt := op.T.Build()
 				lim := len(data)
-				if lim > 64 {
-					lim = 64
+				if lim > 28 {
+					lim = 28
 				}
 				for cut := 1; cut < lim; cut++ {
 					scratch := reflect.New(bt)
@@ -112,7 +112,7 @@ func runOp(p *plenc.Plenc, op c07Op, cfg vh.Cfg) (out string, panicked string) {
 				_ = p.Unmarshal(append(append([]byte{}, data[:len(data)/2]...), 0xff, 0xff, 0xff, 0xff, 0x0f), scratch.Interface())
 				// damaged in place: complete frames whose contents are corrupt fail deeper down
 				for pos := 0; pos < lim; pos++ {
-					for _, nb := range []byte{data[pos] ^ 0x55, 0x7f, data[pos] + 3} {
+					for _, nb := range []byte{data[pos] ^ 0x55, data[pos] + 3} {
 						bad := append([]byte{}, data...)
 						bad[pos] = nb
 						scratch := reflect.New(bt)
@@ -266,7 +266,10 @@ func TestC07Enumerate(t *testing.T) {
 		// fixed values: a small non-trivial value per type, drawn with a fixed rapid seed per family
 		for a := 0; a < len(fam) && a < 3; a++ {
 			for b := 0; b < len(fam) && b < 3; b++ {
-				for _, kinds := range [][2]string{{"marshal", "unmarshal"}, {"codec", "marshal"}, {"unmarshal", "unmarshal"}, {"corrupt-then-unmarshal", "corrupt-then-unmarshal"}} {
+				for ki, kinds := range [][2]string{{"marshal", "unmarshal"}, {"codec", "marshal"}, {"unmarshal", "unmarshal"}, {"corrupt-then-unmarshal", "corrupt-then-unmarshal"}} {
+					if ki == 3 && !vh.Thorough() {
+						continue
+					}
 					pairIdx++
 					if pairIdx%shards != shard {
 						continue
